@@ -208,7 +208,7 @@ type world struct {
 	mp      *sdkmetric.MeterProvider
 	rm      *metricdata.ResourceMetrics
 	reuse   bool
-	rec     []func(v int, kvs []attribute.KeyValue)                      // per instrument
+	rec     []func(v int, kvs []attribute.KeyValue)                     // per instrument
 	observe []func(ob metric.Observer, v int, kvs []attribute.KeyValue) // per observable instrument
 	pending []obsRec                                                    // observations of the next cycle, in arrival order
 }
@@ -1381,6 +1381,11 @@ func probe(args []string) {
 	fs.Parse(args)
 	var cfg Cfg
 	vh.Must(json.Unmarshal([]byte(*cfgJ), &cfg))
+	for i := range cfg.Insts {
+		if cfg.Insts[i].SN == "" {
+			cfg.Insts[i].SN = "c12"
+		}
+	}
 	var ops []Op
 	vh.Must(json.Unmarshal([]byte(*opsJ), &ops))
 	all := append([]Op{{Op: "S", Cfg: &cfg}}, ops...)
